@@ -776,7 +776,7 @@ func TestVerifC18Replay(t *testing.T) {
 					continue
 				}
 				concs := []c18Conc{{Swap: (j.idx+seed)%2 == 1, Decor: (j.idx/2 + seed) % 3}}
-				if kit.Thorough() {
+				if kit.Thorough() && len(b.Steps) <= 3 { // the other byte order of the UIDs, another body layout
 					concs = append(concs, c18Conc{Swap: !concs[0].Swap, Decor: (concs[0].Decor + 1) % 3})
 				}
 				for _, c := range concs {
